@@ -74,18 +74,24 @@ Definition zset (z : zone) (k : key) (v : list rec) : zone := (k, v) :: zdel z k
 (* RecordSet::insert / remove                                          *)
 (* ------------------------------------------------------------------ *)
 
-(* ---- the three places where the code departs from RFC 2136 / RFC 1982 in a way that breaks the
-   property are isolated as small definitions, so that a repair flips one line each ---- *)
+(* ---- three small definitions that were the sites of findings F6a, F6b, F-a/F-c; they now
+   follow the repaired code (fix commits 118f816 and 9a1aca9 in /repo) ---- *)
 
-(* F6a  RecordSet::insert, SOA arm: `new_soa.serial <= existing_soa.serial` on plain u32
-        (RFC 2136 3.4.2.2 wants RFC 1982 serial arithmetic) *)
-Definition soa_newer (new_serial existing : N) : bool := negb (new_serial <=? existing).
+(* RecordSet::insert, SOA arm: the update is ignored unless
+   `SerialNumber::new(new_soa.serial) > SerialNumber::new(existing_soa.serial)`, i.e.
+   SerialNumber::partial_cmp (RFC 1982, 32 bits) returns Some(Greater); an undefined comparison
+   (distance exactly 2^31) is not Greater *)
+Definition half32 := 2147483648.
+Definition soa_newer (new_serial existing : N) : bool :=
+  negb (new_serial =? existing) &&
+  (((new_serial <? existing) && (half32 <? existing - new_serial))
+   || ((existing <? new_serial) && (new_serial - existing <? half32))).
 
 Definition two32 := 4294967296.
-(* F6b  SOA::increment_serial: `self.serial += 1`.  [ovf] = the build has overflow checks (debug):
-        None = panic at 2^32-1; release builds wrap *)
-Definition next_serial (ovf : bool) (s : N) : option N :=
-  if (s =? two32 - 1) && ovf then None else Some ((s + 1) mod two32).
+(* SOA::increment_serial: `self.serial = self.serial.wrapping_add(1)` in every build: never a
+   panic.  ([ovf], "the build has overflow checks", is kept as a parameter of the model but no
+   longer matters; None would be a panic.) *)
+Definition next_serial (ovf : bool) (s : N) : option N := Some ((s + 1) mod two32).
 
 (* returns the new record list and "inserted".  Record equality ignores TTL, so an RR whose
    RDATA is already present is "identical" and the update is ignored (the TTL is NOT replaced). *)
@@ -147,7 +153,7 @@ Definition serial (origin : name) (z : zone) : N :=
   | _ => 0
   end.
 
-(* The SOA RRset has been removed from the map before the addition: a panic loses it. *)
+(* The SOA RRset is removed from the map, incremented and upserted again. *)
 Inductive outcome (A : Type) := Done (a : A) | Panic (a : A).
 Arguments Done {A}. Arguments Panic {A}.
 
@@ -181,12 +187,11 @@ Fixpoint is_suffix_rev (o n : list N) : bool :=   (* o, n reversed: o is a prefi
 (* Name::zone_of: the labels of [origin] are all present at the end of [n] *)
 Definition zone_of (origin n : name) : bool := is_suffix_rev (rev origin) (rev n).
 
-(* F-a/F-c  the `retain` closure of the "delete all RRsets from a name" arm, as written:
-     k.name != rr_name || ((k.record_type == SOA || k.record_type == NS) && k.name != *origin)
-   The last conjunct is inverted: RFC 2136 3.4.2.3 keeps SOA/NS when the name IS the apex. As
-   written, the apex loses SOA and NS, and any other name keeps its NS/SOA RRsets. *)
+(* the `retain` closure of the "delete all RRsets from a name" arm:
+     k.name != rr_name || ((k.record_type == SOA || k.record_type == NS) && k.name == *origin)
+   RFC 2136 3.4.2.3: everything at the name goes, except SOA and NS when the name is the apex *)
 Definition retain_keep (origin n : name) (k : key) : bool :=
-  negb (name_eqb (fst k) n) || (((snd k =? tSOA) || (snd k =? tNS)) && negb (name_eqb (fst k) origin)).
+  negb (name_eqb (fst k) n) || (((snd k =? tSOA) || (snd k =? tNS)) && name_eqb (fst k) origin).
 Definition retain_any (origin n : name) (z : zone) : zone :=
   filter (fun e => retain_keep origin n (fst e)) z.
 
